@@ -131,6 +131,7 @@ func GenTable(rng *rand.Rand, p, s, q, maxN int, withSpans bool, delsized bool) 
 
 type ptState struct {
 	lo, hi     int
+	elo, ehi   int // bounds intersected with the virtual table's bounds
 	st         string
 	pfx        int
 	fwd        bool
@@ -144,7 +145,19 @@ type ptState struct {
 // executing them on the leader and appending them to the script.
 func GenPointOps(rng *rand.Rand, x *Exec, h, lo, hi, n int, script *[]Ev) {
 	u := x.U
-	s := &ptState{lo: lo, hi: hi, st: "unpos", pfx: -1, fwd: true, sko: "none"}
+	s := &ptState{lo: lo, hi: hi, elo: lo, ehi: hi, st: "unpos", pfx: -1, fwd: true, sko: "none"}
+	if x.V.On {
+		vup := x.V.Vhi
+		if x.V.VhiIncl {
+			vup++
+		}
+		if x.V.Vlo > s.elo {
+			s.elo = x.V.Vlo
+		}
+		if vup < s.ehi {
+			s.ehi = vup
+		}
+	}
 	for i := 0; i < n; i++ {
 		type cand struct {
 			o string
@@ -158,7 +171,7 @@ func GenPointOps(rng *rand.Rand, x *Exec, h, lo, hi, n int, script *[]Ev) {
 			cs = append(cs, cand{"last", 2})
 		}
 		cs = append(cs, cand{"seekge", 4}, cand{"seeklt", 4})
-		if s.lo <= u.R()-1 {
+		if s.lo <= u.R()-1 && s.lo <= s.ehi {
 			cs = append(cs, cand{"seekprefixge", 3})
 		}
 		if (s.pfx < 0 && (s.st == "at" || s.st == "before")) || (s.pfx >= 0 && s.st == "at") {
@@ -185,10 +198,12 @@ func GenPointOps(rng *rand.Rand, x *Exec, h, lo, hi, n int, script *[]Ev) {
 		}
 		k, f := 0, 0
 		switch o {
-		case "seekge", "seeklt":
-			k = s.lo + rng.IntN(s.hi-s.lo+1)
+		case "seekge":
+			k = s.lo + rng.IntN(s.ehi-s.lo+1)
+		case "seeklt":
+			k = s.elo + rng.IntN(s.hi-s.elo+1)
 		case "seekprefixge":
-			top := s.hi
+			top := s.ehi
 			if top > u.R()-1 {
 				top = u.R() - 1
 			}
@@ -324,6 +339,20 @@ func GenScriptV(rng *rand.Rand, leader WCfg, p, s int, tab *Table, iters, opsPer
 	for i := 0; i < iters; i++ {
 		h++
 		lo, hi := randBounds(rng, x.U.R())
+		if virt != nil && virt.B("on") {
+			// ConstrainBounds assumes that the caller's bounds overlap the virtual table
+			// (a levelIter only opens files that overlap its bounds)
+			vlo, vup := virt.I("vlo"), virt.I("vhi")
+			if virt.B("vhiincl") {
+				vup++
+			}
+			for try := 0; !(lo < vup && hi > vlo); try++ {
+				lo, hi = randBounds(rng, x.U.R())
+				if try > 20 {
+					lo, hi = 0, x.U.R()
+				}
+			}
+		}
 		e := Ev{"op": "open", "h": h, "t": "pt", "lo": lo, "hi": hi}
 		script = append(script, e)
 		x.Step(e)
